@@ -92,6 +92,7 @@ def run(ctx):
             "written": 0, "not_written": 0, "update_filter": {"n": 0, "i": 0, "x": 0}, "files_with_carried_over_tests": 0, "wellformed_expectations": 0, "bytes_total": 0, "clauses_failed": {}}
     corr_viol = []
     sx_total = sx_class = 0
+    acts_total = acts_ok = ent_total = ent_canon = 0
     for line in out.split("\n"):
         if not line.strip():
             continue
@@ -113,6 +114,15 @@ def run(ctx):
         dist["files_with_carried_over_tests"] += int(kv.get("carried", "0")) > 0
         sx_total += int(kv.get("sx", "0"))
         sx_class += int(kv.get("sxclass", "0"))
+        acts_total += int(kv.get("acts", "0"))
+        acts_ok += int(kv.get("actok", "0"))
+        ent_total += n0
+        ent_canon += int(kv.get("canon", "0"))
+        if kv.get("acts") != kv.get("actok"):
+            corr_viol.append(("corr", "an answer of the real parser violates ActOK (hypothesis of update_idempotent_partial: plain rendering "
+                              "without fields, equal renderings when there are no fields, error-free renderings in the format class)",
+                              {"case": cid, "spec": specs.get(cid, ""), "result": {k: v for k, v in kv.items() if k != "model1"}},
+                              {"corr": "actok"}, False))
         if kv.get("sx") != kv.get("sxclass"):
             corr_viol.append(("corr", "an S-expression printed by the runtime for an error-free tree is not a balanced token "
                               "sequence (hypothesis class of format_normalize)",
@@ -157,6 +167,10 @@ def run(ctx):
     ctx.oblige("corr:parseFile=parse_tests", corr["parse0"] + corr["parse1"] == 0, "%d disagreements" % (corr["parse0"] + corr["parse1"]))
     ctx.oblige("tie:printed-sexps-in-format_normalize-class", sx_total == sx_class,
                "%d of %d S-expressions printed for error-free trees are balanced token sequences" % (sx_class, sx_total))
+    ctx.oblige("tie:parser-answers-satisfy-ActOK", acts_total == acts_ok, "%d of %d" % (acts_ok, acts_total))
+    ctx.coverage["idempotence_hypotheses_measured"] = {
+        "parser_answers": acts_total, "satisfying_ActOK": acts_ok,
+        "real_entries": ent_total, "with_canonical_flags (attrs = flagsOf name attrsStr)": ent_canon}
     ctx.coverage["format_class"] = {"printed_error_free_sexps": sx_total, "in_theorem_class": sx_class}
     ctx.oblige("corr:updateFile=run_tests_at_path(update)", corr["upd1"] + corr["upd2"] == 0, "%d disagreements" % (corr["upd1"] + corr["upd2"]))
     ctx.coverage.update({
